@@ -14,7 +14,10 @@ Check ==
         cc == c'
     IN  IF ~HasObs(e) \/ ~cc.rot THEN TRUE ELSE
         LET F == e.obs.files IN
-        /\ Chk(e, "TsNameIsStart", cc.clean \/ TsNameIsStart(F, Gran(cc)))
+        \* with use_utc() the infix is the start time rendered in UTC (the zones of the harness have a fixed offset)
+        /\ Chk(e, "TsNameIsStart", cc.clean \/ IF cc.utc THEN TsNameIsStartOff(F, Gran(cc), cc.utcoff)
+                                                ELSE TsNameIsStart(F, Gran(cc)))
+        /\ Cnt(6, cc.utc /\ cc.utcoff # 0 /\ \E j \in 1..Len(F) : F[j].k = "ts")
         /\ IF cc.age = "" \/ cc.clean \/ Stream(F) # a THEN Cnt(5, TRUE) ELSE
            /\ Chk(e, "OnePeriodPerFile", OnePeriodPerFile(F, cc.age, wts'))
            /\ Chk(e, "NoRotationInsidePeriod", NoRotationInsidePeriod(F, cc.age, cc.size, forced'))
